@@ -425,6 +425,9 @@ def r6_doc_sync(c, facts):
 
 
 def run(c, facts):
+    import c11 as _c11
+    R9 = c.rule('C15.R9', 'LOADER-TEXT: the server keeps, reads and parses the texts exactly as the client sent them and as they are on disk, so every client position refers to the text the server holds (shared with C11.R1)')
+    c.run(lambda c: _c11.loader_text(c, facts, R9))
     import c18
     c.run(lambda c: c18.r7_no_reject(c, facts, rule='C15.R8'))
     c.run(r6_doc_sync, facts)
